@@ -9,13 +9,15 @@ NAN = float("nan")
 
 
 @st.composite
-def table(draw, max_rows=12, nan=True, min_rows=1, time_index=False):
+def table(draw, max_rows=12, nan=True, min_rows=1, time_index=False, categorical=False):
     n = draw(st.integers(min_rows, max_rows))
     xv = st.integers(-12, 12).map(lambda k: k / 4.0)
     if nan and draw(st.booleans()):
         xv = st.one_of(xv, xv, xv, st.just(None))
     rows = [[draw(xv), draw(st.integers(0, 5)), draw(st.integers(0, 3))] for _ in range(n)]
-    t = {"rows": rows, "gkind": draw(st.sampled_from(["int", "int", "str"]))}
+    # "cat": the key column is categorical with a category that never occurs
+    t = {"rows": rows, "gkind": draw(st.sampled_from(["int", "int", "str"] +
+                                                     (["cat"] if categorical else [])))}
     if time_index:
         # non-decreasing timestamps on a 1 s grid, duplicates allowed
         steps = [draw(st.integers(0, 3)) for _ in range(n)]
@@ -40,10 +42,12 @@ def frame(t, lo=0, hi=None):
     x = [NAN if r[0] is None else r[0] for r in rows]
     y = [r[1] for r in rows]
     g = [r[2] for r in rows]
-    if t["gkind"] == "str":
+    if t["gkind"] in ("str", "cat"):
         g = ["abcd"[k] for k in g]
+    gdtype = {"int": "int64", "str": "object",
+              "cat": pd.CategoricalDtype(categories=list("abcde"))}[t["gkind"]]
     df = pd.DataFrame({"x": pd.Series(x, dtype="float64"), "y": pd.Series(y, dtype="int64"),
-                       "g": pd.Series(g, dtype="int64" if t["gkind"] == "int" else "object")})
+                       "g": pd.Series(g, dtype=gdtype)})
     if "ts" in t:
         df.index = pd.DatetimeIndex([pd.Timestamp("2020-01-01") + pd.Timedelta(seconds=s)
                                      for s in t["ts"][lo:hi]]).as_unit(t.get("ts_unit", "ns"))
